@@ -13,6 +13,7 @@ Open Scope Z_scope.
 Definition host := string.       (* ExtraRequestInfo.Hostname, exactly as it arrived *)
 Definition cluster := string.    (* ClusterInfo.Cluster *)
 Definition key := list string.   (* cache key inside one host's cache *)
+Definition server := string.     (* an upstream apiserver (its endpoint URL) *)
 
 (* ---------- what a cluster can answer, what the caller gets ---------- *)
 (* error classes of the (.., err) component *)
@@ -87,7 +88,7 @@ Definition should_cache (a : attrs) : bool :=
 (* ---------- configuration ---------- *)
 Record config := {
   reg : list (string * cluster);   (* manager.clusters: lower-cased key -> ClusterInfo (names and aliases) *)
-  neps : list (cluster * nat);     (* number of endpoints of each ClusterInfo *)
+  servers : list (cluster * list server);  (* initial .spec.servers of each cluster (lists pairwise disjoint) *)
   sttl : Z; fttl : Z;              (* tokenSuccessCacheTTL / tokenFailureCacheTTL *)
   attl : Z; dttl : Z;              (* allowCacheTTL / denyCacheTTL *)
   tretries : nat; sretries : nat   (* further attempts WithExponentialBackoff may make after the first *)
@@ -102,8 +103,14 @@ Fixpoint assoc {V} (k : string) (l : list (string * V)) : option V :=
 (* manager.Get: strings.ToLower(name), then the map *)
 Definition cluster_of (cfg : config) (h : host) : option cluster := assoc (to_lower h) (reg cfg).
 
-Definition ep_count (cfg : config) (c : cluster) : nat :=
-  match assoc c (neps cfg) with Some n => n | None => O end.
+Definition init_servers (cfg : config) (c : cluster) : list server :=
+  match assoc c (servers cfg) with Some l => l | None => [] end.
+
+Fixpoint find_owner (srv : server) (l : list (cluster * list server)) : option cluster :=
+  match l with
+  | [] => None
+  | (c, ss) :: r => if str_mem srv ss then Some c else find_owner srv r
+  end.
 
 (* ---------- one kind of review (token / SAR): what differs between the two ---------- *)
 Inductive ucause := UNoInfo | UNotFound | UNoReady.
@@ -161,8 +168,14 @@ Record kstate (R : Type) := {
   kn : cluster -> nat }.
 Arguments kc {R}. Arguments kn {R}.
 
+(* endpoints: per cluster its CURRENT server list (ClusterInfo.Endpoints) with (Healthy, Disabled) of
+   each endpoint, and which cluster a server currently belongs to *)
+Record epstate := {
+  e_list : cluster -> list (server * (bool * bool));
+  e_own : server -> option cluster }.
+
 Record state := {
-  eps : cluster -> list (bool * bool);   (* per endpoint (Healthy, Disabled) *)
+  eps : epstate;
   ts : kstate tresult;
   ss : kstate sresult }.
 
@@ -177,14 +190,19 @@ Definition upd_cnt (f : cluster -> nat) (c : cluster) (n : nat) : cluster -> nat
 
 Definition init_k {R} : kstate R := {| kc := fun _ _ => None; kn := fun _ => O |}.
 
-Definition fresh_eps (cfg : config) (c : cluster) : list (bool * bool) := repeat (false, false) (ep_count cfg c).
+(* a new EndpointInfo starts unhealthy and enabled *)
+Definition fresh_ep (srv : server) : server * (bool * bool) := (srv, (false, false)).
+
+Definition init_eps (cfg : config) : epstate :=
+  {| e_list := fun c => map fresh_ep (init_servers cfg c);
+     e_own := fun srv => find_owner srv (servers cfg) |}.
 
 Definition init (cfg : config) : state :=
-  {| eps := fresh_eps cfg; ts := init_k; ss := init_k |}.
+  {| eps := init_eps cfg; ts := init_k; ss := init_k |}.
 
 (* endpointStatus.IsReady = !Disabled && Healthy; PickOne succeeds iff some endpoint is ready *)
 Definition ep_ready (e : bool * bool) : bool := (negb (snd e) && fst e)%bool.
-Definition ready (s : state) (c : cluster) : bool := existsb ep_ready (eps s c).
+Definition ready (s : state) (c : cluster) : bool := existsb (fun e => ep_ready (snd e)) (e_list (eps s) c).
 
 (* info from context; ClientFor(host): manager.Get, then PickOne *)
 Definition route (cfg : config) (s : state) (ho : option host) : (host * cluster) + ucause :=
@@ -249,25 +267,35 @@ Definition drop_cluster {R} (cfg : config) (c : cluster) (st : kstate R) : kstat
 Definition evict {R} (h : host) (k : key) (st : kstate R) : kstate R :=
   {| kc := upd_cache (kc st) h k None; kn := kn st |}.
 
-Fixpoint set_nth {X} (i : nat) (f : X -> X) (l : list X) : list X :=
-  match l, i with
-  | [], _ => []
-  | x :: r, O => f x :: r
-  | x :: r, S j => x :: set_nth j f r
-  end.
-
-Definition upd_eps (f : cluster -> list (bool * bool)) (c : cluster) (v : list (bool * bool)) :=
+Definition upd_list (f : cluster -> list (server * (bool * bool))) (c : cluster) (v : list (server * (bool * bool))) :=
   fun c' => if String.eqb c' c then v else f c'.
+Definition upd_own (f : server -> option cluster) (srv : server) (v : option cluster) :=
+  fun s' => if String.eqb s' srv then v else f s'.
+
+(* apply f to the status of server srv in a list *)
+Fixpoint set_srv (srv : server) (f : bool * bool -> bool * bool) (l : list (server * (bool * bool)))
+  : list (server * (bool * bool)) :=
+  match l with
+  | [] => []
+  | (s', st) :: r => if String.eqb s' srv then (s', f st) :: r else (s', st) :: set_srv srv f r
+  end.
+Fixpoint del_srv (srv : server) (l : list (server * (bool * bool))) : list (server * (bool * bool)) :=
+  match l with
+  | [] => []
+  | (s', st) :: r => if String.eqb s' srv then del_srv srv r else (s', st) :: del_srv srv r
+  end.
 
 (* ---------- operations and outputs ---------- *)
 Inductive op :=
 | OAuthn (ho : option host) (tok : string) (now : Z)    (* AuthenticateToken; ho = None: no ExtraRequestInfo *)
 | OAuthz (ho : option host) (a : attrs) (now : Z)       (* Authorize *)
-| OHealthy (c : cluster) (i : nat) (b : bool)           (* endpoint i of c: UpdateStatus(healthy=b) *)
-| ODisabled (c : cluster) (i : nat) (b : bool)          (* endpoint i of c: SetDisabled(b) *)
+| OHealthy (srv : server) (b : bool)                    (* the endpoint of srv in its current cluster: UpdateStatus(healthy=b) *)
+| ODisabled (srv : server) (b : bool)                   (* the endpoint of srv in its current cluster: SetDisabled(b) *)
 | ORestart (c : cluster)                                (* ClusterInfo of c stopped, a new one (fresh endpoints) registered *)
 | OEvictT (h : host) (tok : string)                     (* the host's token cache loses this entry (gc) *)
-| OEvictS (h : host) (a : attrs).                       (* the host's LRU cache loses this entry (eviction) *)
+| OEvictS (h : host) (a : attrs)                        (* the host's LRU cache loses this entry (eviction) *)
+| OAddEp (c : cluster) (srv : server)                   (* ClusterInfo.Sync with srv added to .spec.servers (a server of no cluster) *)
+| ORemoveEp (c : cluster) (srv : server).               (* ClusterInfo.Sync with srv removed from .spec.servers *)
 
 Inductive out :=
 | OutT (r : tresult) (calls : list call)
@@ -275,6 +303,37 @@ Inductive out :=
 | OutNone.
 
 Definition tkey (tok : string) : key := [tok].
+
+(* what the endpoint operations do to the clusters' server lists (syncEndpoints / UpdateStatus /
+   SetDisabled / a new ClusterInfo for the same object) *)
+Definition ep_apply (o : op) (E : epstate) : epstate :=
+  match o with
+  | OHealthy srv b =>
+      match e_own E srv with
+      | Some c => {| e_list := upd_list (e_list E) c (set_srv srv (fun st => (b, snd st)) (e_list E c)); e_own := e_own E |}
+      | None => E
+      end
+  | ODisabled srv b =>
+      match e_own E srv with
+      | Some c => {| e_list := upd_list (e_list E) c (set_srv srv (fun st => (fst st, b)) (e_list E c)); e_own := e_own E |}
+      | None => E
+      end
+  | ORestart c =>
+      {| e_list := upd_list (e_list E) c (map (fun e => fresh_ep (fst e)) (e_list E c)); e_own := e_own E |}
+  | OAddEp c srv =>
+      match e_own E srv with
+      | Some _ => E
+      | None => {| e_list := upd_list (e_list E) c (e_list E c ++ [fresh_ep srv]); e_own := upd_own (e_own E) srv (Some c) |}
+      end
+  | ORemoveEp c srv =>
+      match e_own E srv with
+      | Some c' => if String.eqb c' c
+                   then {| e_list := upd_list (e_list E) c (del_srv srv (e_list E c)); e_own := upd_own (e_own E) srv None |}
+                   else E
+      | None => E
+      end
+  | _ => E
+  end.
 
 Definition step (cfg : config) (torc : cluster -> nat -> tanswer) (sorc : cluster -> nat -> sanswer)
            (s : state) (o : op) : state * out :=
@@ -285,12 +344,10 @@ Definition step (cfg : config) (torc : cluster -> nat -> tanswer) (sorc : cluste
   | OAuthz ho a now =>
       let '(st', r, calls) := request cfg (skind cfg) sorc s (ss s) ho (sar_key a) (should_cache a) now in
       ({| eps := eps s; ts := ts s; ss := st' |}, OutS r calls)
-  | OHealthy c i b =>
-      ({| eps := upd_eps (eps s) c (set_nth i (fun e => (b, snd e)) (eps s c)); ts := ts s; ss := ss s |}, OutNone)
-  | ODisabled c i b =>
-      ({| eps := upd_eps (eps s) c (set_nth i (fun e => (fst e, b)) (eps s c)); ts := ts s; ss := ss s |}, OutNone)
+  | OHealthy _ _ | ODisabled _ _ | OAddEp _ _ | ORemoveEp _ _ =>
+      ({| eps := ep_apply o (eps s); ts := ts s; ss := ss s |}, OutNone)
   | ORestart c =>
-      ({| eps := upd_eps (eps s) c (fresh_eps cfg c);
+      ({| eps := ep_apply o (eps s);
           ts := drop_cluster cfg c (ts s); ss := drop_cluster cfg c (ss s) |}, OutNone)
   | OEvictT h tok => ({| eps := eps s; ts := evict h (tkey tok) (ts s); ss := ss s |}, OutNone)
   | OEvictS h a => ({| eps := eps s; ts := ts s; ss := evict h (sar_key a) (ss s) |}, OutNone)
